@@ -116,14 +116,14 @@ def oracle(ck, extended):
         N = (base + 2 * mult) * 2 ** (J - 1)
         if N > (160 if q else 400):
             J = 1; N = base + 2 * mult
-        oracle_orth(ck, 1, J, name, (N,))
+        rt.guard(ck, oracle_orth, ck, 1, J, name, (N,))
         if L <= 8:
             J2 = rng.randint(1, 2)
-            oracle_orth(ck, 2, J2, name, (base * 2 ** (J2 - 1), (base + 2) * 2 ** (J2 - 1)))
+            rt.guard(ck, oracle_orth, ck, 2, J2, name, (base * 2 ** (J2 - 1), (base + 2) * 2 ** (J2 - 1)))
     for it in range((30 if q else 300) * (3 if extended else 1)):
         L = 2 * rng.randint(1, 5); J = rng.randint(1, 3)
         N = (L + 2 * rng.randint(0, 3)) * 2 ** (J - 1)
-        oracle_transpose_exact(ck, J, L, N)
+        rt.guard(ck, oracle_transpose_exact, ck, J, L, N)
 
 
 def run(ck):
